@@ -192,6 +192,7 @@ def run_job(job, timeout=120):
         e['PYTHONPATH'] = env.REPO
         e['PYTHONHASHSEED'] = '0'
         e['PYTHONDONTWRITEBYTECODE'] = '1'
+        e.update(job.get('env') or {})
         cwd = os.path.join(scratch, 'cwd')
         os.mkdir(cwd)
         try:
@@ -365,6 +366,25 @@ def run_chunk(task, agg):
                                 'bs4.select': res['probe'].get('bs4.select'), 'run_seed': seed})
         if v:
             agg.violations.append(make_record(job, v, res, seed, cfg, i))
+        elif res and res.get('env_reads'):
+            # the package was seen reading environment variables: the environment is part of the configuration space,
+            # so the same job is repeated with each of them set to awkward values (same oracles, same cross-run groups)
+            for name in sorted(res['env_reads'])[:3]:
+                for val in ENV_VALUES:
+                    job2 = dict(job, env={name: val})
+                    res2, rc2, stderr2 = run_job(job2)
+                    agg.count('fault:environment-variable-set')
+                    v2 = judge(job2, res2, rc2, stderr2)
+                    if v2:
+                        agg.violations.append(make_record(job2, v2, res2, seed, cfg, i))
+                        break
+                    pk, ph = probe_key(job2), fp.h(res2['probe'])
+                    if ph not in agg.sets.get('probe:' + pk, ()):
+                        agg.extra.append(['probe', pk, ph, job2, res2['probe']])
+                    agg.add_to_set('probe:' + pk, ph)
+
+
+ENV_VALUES = ['', '0', 'unlimited', '1', '-1']
 
 
 def post_batch(agg):
@@ -427,7 +447,8 @@ def describe(rec):
     j = rec['job']
     lines = ['oracle ' + v['oracle'] + ': ' + json.dumps({k: v[k] for k in v if k != 'oracle'}, default=str)[:700]]
     lines.append('fresh interpreter: ' + ' '.join([PY] + j['switches']) + f"   absent modules: {j['blocked'] or 'none'}"
-                 + ('   (no installed distribution metadata for soupsieve)' if j.get('no_dist_info') else ''))
+                 + ('   (no installed distribution metadata for soupsieve)' if j.get('no_dist_info') else '')
+                 + (f"   environment: {j['env']}" if j.get('env') else ''))
     for i, s in enumerate(j['program']):
         lines.append(f'  {i}: {s}')
     lines.append('probe: ' + json.dumps(j['probe'])[:400])
